@@ -51,6 +51,13 @@ PatCases == { [kind |-> "pat", pos |-> ps, sym |-> sy, f |-> fn] :
               ps \in {"fn", "mod", "impl", "trait"}, sy \in { x \in AllSyms : SymOkAt(x, 1) }, fn \in { Nm("foo"), Nm("arg0"), RawNm("match") } }
 PatCasesOK == { x \in PatCases : ValidOriginal(<<x.sym>>, x.f) }
 
+\* (f) generic parameters and where-clauses (analyze_generics.rs, generics.rs *Generator::to_tokens): how the dependency
+\* parameter declares its bounds x which kind of further where-predicate the function has, in fn / mod / impl-block position.
+\* All of these are valid uses: the emitted trait / impl headers and where-clauses must parse.
+DepBounds == {"bare", "inline", "where", "impl"}
+WherePredKinds == {"none", "path", "assoc", "tuple", "hrtb", "life"}
+GenCases == { [kind |-> "gen", mode |-> m, dbound |-> d, pred |-> w] : m \in {"fn", "mod", "impl"}, d \in DepBounds, w \in WherePredKinds }
+
 \* ------------------------------------------------------------------------
 \* Level 2: the outcome of each case
 \* ------------------------------------------------------------------------
@@ -77,6 +84,7 @@ OutcomeTrait(c) ==
 OutcomePat(c) == IF Final(<<c.sym>>, c.f).panic THEN [outcome |-> "panic", class |-> ""] ELSE Ok
 Outcome(c) == CASE c.kind = "attr" -> OutcomeAttr(c) [] c.kind = "item" -> OutcomeItem(c)
                 [] c.kind = "deps" -> OutcomeDeps(c) [] c.kind = "trait" -> OutcomeTrait(c) [] c.kind = "pat" -> OutcomePat(c)
+                [] c.kind = "gen" -> Ok        \* generics collection has no error path
 
 \* documented misuses: single faults injected into valid invocations (Level 1's `fault`)
 Fault(c) ==
@@ -101,7 +109,7 @@ Fault(c) ==
     [] OTHER -> ""
 OptName(c) == IF c.kind = "attr" /\ Len(c.attr.opts) >= 1 THEN c.attr.opts[1].k ELSE ""
 
-AllCases == AttrCasesOK \cup ItemCases \cup DepsCasesOK \cup TraitCases \cup PatCasesOK
+AllCases == AttrCasesOK \cup ItemCases \cup DepsCasesOK \cup TraitCases \cup PatCasesOK \cup GenCases
 
 \* ---- the machine: each case is driven to its outcome in named steps
 VARIABLES c, pc, out
@@ -109,13 +117,14 @@ vars == <<c, pc, out>>
 Init == c \in AllCases /\ pc = "classify" /\ out = Ok
 ClassifyItem == /\ pc = "classify"
                 /\ IF c.kind = "item" THEN out' = OutcomeItem(c) /\ pc' = "done"
-                   ELSE out' = out /\ pc' = (CASE c.kind = "attr" -> "attr" [] c.kind = "deps" -> "analyze" [] c.kind = "pat" -> "params" [] OTHER -> "trait")
+                   ELSE out' = out /\ pc' = (CASE c.kind = "attr" -> "attr" [] c.kind = "deps" -> "analyze" [] c.kind = "pat" -> "params" [] c.kind = "gen" -> "generics" [] OTHER -> "trait")
                 /\ UNCHANGED c
 ParseAttr    == pc = "attr" /\ out' = OutcomeAttr(c) /\ pc' = "done" /\ UNCHANGED c
 AnalyzeFnDeps == pc = "analyze" /\ out' = OutcomeDeps(c) /\ pc' = "done" /\ UNCHANGED c
 TraitChecks  == pc = "trait" /\ out' = OutcomeTrait(c) /\ pc' = "done" /\ UNCHANGED c
 FixParamIdents == pc = "params" /\ out' = OutcomePat(c) /\ pc' = "done" /\ UNCHANGED c
-Next == ClassifyItem \/ ParseAttr \/ AnalyzeFnDeps \/ TraitChecks \/ FixParamIdents
+CollectGenerics == pc = "generics" /\ out' = Ok /\ pc' = "done" /\ UNCHANGED c
+Next == ClassifyItem \/ ParseAttr \/ AnalyzeFnDeps \/ TraitChecks \/ FixParamIdents \/ CollectGenerics
 Spec == Init /\ [][Next]_vars
 
 NeverPanics == out.outcome # "panic"
